@@ -1,4 +1,5 @@
 """C10 — Visa PVV is the standard PVV and always four digits."""
+import core
 from core import Case, enc_b, enc_s
 from props.cardutil import tdes, corpus, digits, rb
 
@@ -44,6 +45,12 @@ def generate(rng, tier, seed):
         for v in range(10000):
             c = Case("all-pins", {})
             one(c, pvk, str(v % 10), f"{v:04d}", pan)
+            yield c
+    # special key values (constant, DES weak / semi-weak components, text-like): every key is a key
+    for ks in (8, 16, 24):
+        for pvk in core.special_keys(rng, ks, limit=16 if tier == "quick" else None):
+            c = Case("special-key", {"pvk": pvk.hex()[:16], "size": ks})
+            one(c, pvk, digits(rng, 1), digits(rng, 4), digits(rng, rng.choice((12, 16, 19))))
             yield c
     for ln in range(12, 25):
         for ks in (8, 16, 24):
